@@ -619,6 +619,14 @@ class FlowSampler:
         """
         Safely exit. This includes closing the multiprocessing pool.
         """
+        ns = getattr(self, "ns", None)
+        depth = getattr(ns, "_critical_depth", 0)
+        if isinstance(depth, int) and depth > 0:
+            # The sampler is part-way through an update that must not be
+            # checkpointed, exit as soon as it has completed
+            logger.warning(f"Deferring exit with code {signum}")
+            ns._deferred_exit = lambda: self.safe_exit(signum, frame)
+            return
         logger.warning(f"Trying to safely exit with code {signum}")
         self.terminate_run(code=signum)
         logger.warning(f"Exiting with code: {self.exit_code}")
